@@ -7,6 +7,8 @@ import PyElf.Spec.DwarfStructs
 import PyElf.Model.Env
 import PyElf.Driver.C16
 import PyElf.Driver.Tie
+import PyElf.Driver.C03
+import PyElf.Driver.C08
 import PyElf.Driver.C14
 import PyElf.Driver.C20
 import PyElf.Driver.C13
@@ -62,6 +64,8 @@ def handle (req : Json) : Except String Json := do
   | "con" => handleCon req
   | "C16" => Driver.C16.handle req
   | "tie" => Driver.Tie.handle req
+  | "C03" => Driver.C03.handle req
+  | "C08" => Driver.C08.handle req
   | "C14" => Driver.C14.handle req
   | "C20" => Driver.C20.handle req
   | "C13" => Driver.C13.handle req
